@@ -182,6 +182,9 @@ def run(ctx):
         out.append(("render",))
         return out
 
+    # fixed finding F11: an object created before an outer block and entered inside it
+    run_seq([("create", VALID[1]), ("create", VALID[2]), ("enter", 1), ("enter", 0), ("leave",), ("render",), ("leave",), ("render",)], "regression F11")
+    run_seq([("create", VALID[0]), ("enter", 0), ("set", VALID[1]), ("leave",), ("render",)], "regression: context equal to the format in force")
     # exhaustive
     frontier = [[]]
     for length in range(1, exh_len + 1):
